@@ -97,10 +97,14 @@ class Func(object):
     self.name = name
     self.self_obj = self_obj
     self.owner = owner        # ClassInfo the function is defined in
+    self.defaults = None      # default values bound when a nested def /
+                              # lambda was created (python binds them then)
 
   def bind(self, obj):
-    return Func(self.node, self.module, self.closure, self.name, obj,
-                self.owner)
+    f = Func(self.node, self.module, self.closure, self.name, obj,
+             self.owner)
+    f.defaults = self.defaults
+    return f
 
   def __repr__(self):
     return "<Func %s>" % self.name
@@ -385,6 +389,8 @@ def mkfloat(v):
 
 
 _MISSING = object()
+_TRANSPARENT_SCOPES = ("init_scope", "name_scope", "control_dependencies",
+                       "device", "colocate_with", "variable_scope")
 
 
 class PE(object):
@@ -474,6 +480,26 @@ class PE(object):
     elif isinstance(st, ast.Expr):
       if isinstance(st.value, ast.Call):
         self.eval(st.value, [g], module)
+    elif isinstance(st, (ast.For, ast.AugAssign, ast.AnnAssign, ast.With,
+                         ast.Try, ast.Delete)):
+      # module-level code that builds or extends a table
+      self.exec_stmt(st, [g], module)
+    elif isinstance(st, ast.If):
+      t = ast.unparse(st.test).replace('"', "'")
+      if t != "__name__ == '__main__'":
+        self.exec_stmt(st, [g], module)
+
+  def _bind_defaults(self, f, frames, module):
+    """Positional defaults of a nested def / lambda are evaluated when the
+    function object is created (the `lambda x, k=k:` idiom in a loop)."""
+    vals = {}
+    for di, d in enumerate(f.node.args.defaults):
+      try:
+        vals[di] = self.eval(d, frames, module)
+      except (Unsupported, ConfigRejected, PyRaise):
+        pass       # evaluated (and reported) if the default is ever needed
+    f.defaults = vals
+    return f
 
   def lookup_global(self, name, module):
     g = self.module_globals(module)
@@ -597,8 +623,20 @@ class PE(object):
       finally:
         if st.finalbody:
           self.exec_block(st.finalbody, frames, module)
+    elif isinstance(st, ast.With):
+      # TensorFlow scoping helpers do not change what the body computes
+      for item in st.items:
+        ce = item.context_expr
+        fn = ce.func if isinstance(ce, ast.Call) else ce
+        name = ast.unparse(fn).split(".")[-1]
+        if name not in _TRANSPARENT_SCOPES:
+          self.err("statement With over %s" % ast.unparse(fn), st)
+        if item.optional_vars is not None:
+          self.assign(item.optional_vars, Mock(name, {}), frames, module)
+      self.exec_block(st.body, frames, module)
     elif isinstance(st, ast.FunctionDef):
-      frames[-1][st.name] = Func(st, module, list(frames), st.name)
+      frames[-1][st.name] = self._bind_defaults(
+          Func(st, module, list(frames), st.name), frames, module)
     elif isinstance(st, ast.Pass):
       return
     elif isinstance(st, ast.Break):
@@ -873,7 +911,8 @@ class PE(object):
     return self.eval(node.body if c else node.orelse, frames, module)
 
   def eval_Lambda(self, node, frames, module):
-    return Func(node, module, list(frames), "<lambda>")
+    return self._bind_defaults(Func(node, module, list(frames), "<lambda>"),
+                               frames, module)
 
   def eval_ListComp(self, node, frames, module):
     out = []
@@ -1506,7 +1545,9 @@ class PE(object):
           local[p] = kwargs.pop(p)
         else:
           di = i - (len(params) - ndef)
-          if di >= 0:
+          if di >= 0 and f.defaults is not None and di in f.defaults:
+            local[p] = f.defaults[di]
+          elif di >= 0:
             cached = self.__dict__.setdefault("_def_defaults", {})
             if (id(node), di) in cached:
               local[p] = cached[(id(node), di)]
